@@ -23,13 +23,13 @@ use crate::verif::world::Chain;
 
 pub(crate) struct Worlds {
     pub main: Chain,  // 30 blocks
-    pub fork: Chain,  // forks off main at 11, 16 blocks
+    pub fork: Chain,  // forks off main at 11, tip 24
 }
 
 pub(crate) fn worlds(env: &Env) -> Worlds {
     let main = scen::std_chain(env, 30, 6);
     let mut fork = main.fork(11, 99);
-    scen::extend_chain(&mut fork, &env.scripts, 16, &[(13, scen::Act::Mine('A'))]);
+    scen::extend_chain(&mut fork, &env.scripts, 24, &[(13, scen::Act::Mine('A'))]);
     Worlds { main, fork }
 }
 
@@ -73,10 +73,24 @@ fn is(kind: &'static str) -> impl FnMut(&InFlight) -> bool {
 /// Builds the scenario; the "home" messages (honest answers about to be delivered) are the
 /// front `n` entries of the queue, n is returned.
 pub(crate) fn build(env: &Env, w: &Worlds, scn: Scn) -> (Sim, usize) {
+    build_on(env, w, scn, None)
+}
+
+pub(crate) fn build_on(env: &Env, w: &Worlds, scn: Scn, old: Option<Sim>) -> (Sim, usize) {
     let mut world = World::new(vec![w.main.clone(), w.fork.clone()], 4);
     world.add_peer(1, 0, 12);
     world.filter_batch = 5;
-    let mut sim = scen::new_sim(env, scen::default_cfg(), world);
+    let mut sim = match old {
+        Some(old) => {
+            crate::verif_hooks::rng_reset(0xC0FFEE);
+            crate::verif::client::set_now(crate::verif::world::BASE_TS + 1_000_000);
+            Sim::recycle(old, scen::default_cfg(), world)
+        }
+        None => {
+            crate::verif::client::set_now(crate::verif::world::BASE_TS + 1_000_000);
+            scen::new_sim(env, scen::default_cfg(), world)
+        }
+    };
     sim.record_trace = std::env::var("C10_TRACE").is_ok();
     let with_scripts = matches!(
         scn,
@@ -112,7 +126,7 @@ pub(crate) fn build(env: &Env, w: &Worlds, scn: Scn) -> (Sim, usize) {
             match scn {
                 Scn::NewProofSampled => sim.set_view(1, 0, 30, true),
                 Scn::NewProofShort => sim.set_view(1, 0, 14, true),
-                _ => sim.set_view(1, 1, 16, true),
+                _ => sim.set_view(1, 1, 24, true),
             }
             sim.deliver(0);
             sim.cm().tick_lc(0);
@@ -172,6 +186,7 @@ struct Sweep<'a> {
     state_changes: u64,
     bans: u64,
     sites: BTreeMap<String, u64>,
+    last_panicked: bool,
 }
 
 impl<'a> Sweep<'a> {
@@ -198,6 +213,7 @@ impl<'a> Sweep<'a> {
             }
         });
         let mut rebuild = false;
+        self.last_panicked = false;
         let mut panic_rec = r.err();
         if panic_rec.is_none() {
             let _ = sim.c().out.take_sent();
@@ -215,6 +231,7 @@ impl<'a> Sweep<'a> {
             }
         }
         if let Some(p) = panic_rec {
+            self.last_panicked = true;
             if p.msg.contains("long fork detected") {
                 self.report.count("documented_long_fork_panics", 1);
                 return true;
@@ -243,9 +260,16 @@ impl<'a> Sweep<'a> {
         self.report.count("scenarios", 1);
         macro_rules! go {
             ($proto:expr, $peer:expr, $data:expr, $label:expr) => {{
+                crate::verif::props::shard::journal($label);
                 if self.deliver(&mut sim, scn, &before, $proto, $peer, $data, $label) {
                     self.rebuilds += 1;
-                    let (s, _) = build(self.env, self.w, scn);
+                    // a panic may have poisoned locks: only recycle a client that did not panic
+                    let reusable = !self.last_panicked;
+                    let (s, _) = if reusable {
+                        build_on(self.env, self.w, scn, Some(sim))
+                    } else {
+                        build(self.env, self.w, scn)
+                    };
                     sim = s;
                     before = sim.c().light_print();
                 }
@@ -257,7 +281,12 @@ impl<'a> Sweep<'a> {
             // the honest message itself is NOT delivered here (it would advance the history);
             // mutants:
             let mut muts: Vec<Mutant> = vec![];
-            mutate::byte_windows(&home.data, thorough, |m| muts.push(m));
+            mutate::byte_windows(&home.data, thorough, |m| {
+                // quick: the all-ones value of every width (and zero for 8 bytes) at every offset
+                if thorough || m.label.ends_with("v=0)") || ((m.label.contains("w=8") || m.label.contains("w=32")) && m.label.ends_with("v=1)")) {
+                    muts.push(m)
+                }
+            });
             mutate::truncations(&home.data, |m| muts.push(m));
             if thorough {
                 mutate::bit_flips(&home.data, |m| muts.push(m));
@@ -289,42 +318,42 @@ impl<'a> Sweep<'a> {
 
 pub(crate) fn run(opts: &Opts, report: &mut Report) {
     let thorough = opts.thorough();
-    let envs: Vec<Env> = if thorough {
-        vec![Env::dummy(), Env::eaglesong()]
+    let specs: Vec<&str> = if thorough {
+        vec!["mini_dummy.toml", "mini_eaglesong.toml"]
     } else {
-        vec![Env::dummy()]
+        vec!["mini_dummy.toml"]
     };
-    let mut total = (0u64, 0u64, 0u64, 0u64, 0u64);
-    let mut sites_all: BTreeMap<String, u64> = BTreeMap::new();
-    for env in &envs {
-        let w = worlds(env);
+    let items = specs.len() * ALL_SCN.len();
+    let worker = crate::verif::props::shard::run("C10", opts, report, items, 16, |item, report| {
+        let env = Env::new(specs[item / ALL_SCN.len()]);
+        let scn = ALL_SCN[item % ALL_SCN.len()];
+        let w = worlds(&env);
         // the cross alphabet: honest home messages of every scenario + their structural mutants
-        // + one bare message of every union variant
+        // + re-sealed twins + one bare message of every union variant + junk
         let mut cross: Vec<(Proto, String, ckb_network::bytes::Bytes)> = vec![];
-        for scn in ALL_SCN {
-            let (sim, n) = build(env, &w, scn);
+        for s in ALL_SCN {
+            let (sim, n) = build(&env, &w, s);
             for home in sim.queue.iter().take(n) {
-                cross.push((home.proto.clone(), format!("{:?}/{}", scn, kind_of(home)), home.data.clone()));
+                cross.push((home.proto.clone(), format!("{:?}/{}", s, kind_of(home)), home.data.clone()));
                 for m in mutate::structural(&home.proto, &home.data) {
-                    cross.push((home.proto.clone(), format!("{:?}/{}/{}", scn, kind_of(home), m.label), m.data));
+                    cross.push((home.proto.clone(), format!("{:?}/{}/{}", s, kind_of(home), m.label), m.data));
                 }
                 if let Some(r) = mutate::reseal_lc(&env.consensus, &home.data) {
-                    cross.push((home.proto.clone(), format!("{:?}/{}/resealed", scn, kind_of(home)), r));
+                    cross.push((home.proto.clone(), format!("{:?}/{}/resealed", s, kind_of(home)), r));
                 }
             }
         }
         for (proto, name, data) in mutate::all_variants() {
             cross.push((proto, format!("bare/{}", name), data));
         }
-        // four junk byte strings per protocol
         for proto in [Proto::LightClient, Proto::Filter, Proto::Sync, Proto::Relay] {
             for (i, junk) in [vec![], vec![2u8, 3, 4, 5], vec![0xff; 64], vec![0u8; 64]].into_iter().enumerate() {
                 cross.push((proto.clone(), format!("junk{}", i), junk.into()));
             }
         }
-        report.count("cross_alphabet", cross.len() as u64);
+        report.count("cross_alphabet_size_x_scenarios", cross.len() as u64);
         let mut sweep = Sweep {
-            env,
+            env: &env,
             w: &w,
             report,
             deliveries: 0,
@@ -333,32 +362,42 @@ pub(crate) fn run(opts: &Opts, report: &mut Report) {
             state_changes: 0,
             bans: 0,
             sites: BTreeMap::new(),
+            last_panicked: false,
         };
-        for scn in ALL_SCN {
-            sweep.sweep_scenario(scn, thorough, &cross);
+        sweep.sweep_scenario(scn, thorough, &cross);
+        let (d, r, p, c, b) = (sweep.deliveries, sweep.rebuilds, sweep.panics_seen, sweep.state_changes, sweep.bans);
+        let sites = std::mem::take(&mut sweep.sites);
+        drop(sweep);
+        report.count("transitions", d);
+        report.count("rebuilds_after_state_change_or_panic", r);
+        report.count("panics", p);
+        report.count("deliveries_that_changed_state", c);
+        report.count("bans", b);
+        report.count("states", 1);
+        for (k, v) in sites {
+            report.count(&format!("panic_site/{}", k), v);
         }
-        total.0 += sweep.deliveries;
-        total.1 += sweep.rebuilds;
-        total.2 += sweep.panics_seen;
-        total.3 += sweep.state_changes;
-        total.4 += sweep.bans;
-        for (k, v) in sweep.sites {
-            *sites_all.entry(k).or_insert(0) += v;
-        }
+    });
+    if worker {
+        return;
     }
-    report.set("states", json!(ALL_SCN.len() * envs.len()));
-    report.set("transitions", json!(total.0));
-    report.set("traces_validated_against_impl", json!(total.0));
-    report.set("evaluations", json!(total.0));
-    report.set("distinct_nontrivial", json!(total.0));
-    report.set("rule", json!("states = receiver scenarios (real histories stopped where an honest answer is pending); transitions = mutant deliveries to the real `received` under catch_unwind (+ a timer round after every accepted one); mutants are distinct by construction (window offset x width x value, truncation length, structural operator, re-sealed twin)"));
-    report.set("rebuilds_after_state_change_or_panic", json!(total.1));
-    report.set("panics", json!(total.2));
-    report.set("deliveries_that_changed_state", json!(total.3));
-    report.set("bans", json!(total.4));
-    report.set("panic_sites", json!(sites_all));
-    report.sample(json!({"scenario": "FirstProof", "home": "SendLastStateProof", "mutant": "window(off=..,w=32,v=0) + resealed twin"}));
+    // a worker that died took the process down with it: that is exactly what C10 forbids
+    for (item, why) in crate::verif::props::shard::DEAD.lock().unwrap().iter() {
+        let scn = ALL_SCN[item % ALL_SCN.len()];
+        report.violation(
+            format!("process-abort/{:?}", scn),
+            format!("the worker process for scenario {:?} died: {}", scn, why),
+            json!({"scenario": format!("{:?}", scn), "how": why}),
+        );
+    }
+    let t = report.get("transitions");
+    report.set("traces_validated_against_impl", json!(t));
+    report.set("evaluations", json!(t));
+    report.set("distinct_nontrivial", json!(t));
+    report.set("rule", json!("states = receiver scenarios (real histories stopped where an honest answer is pending) x PoW engines; transitions = mutant deliveries to the real `received` under catch_unwind (+ a timer round after every accepted one); mutants are distinct by construction (window offset x width x value, truncation length, structural operator, re-sealed twin)"));
+    report.sample(json!({"scenario": "ReorgProof", "home": "SendLastStateProof", "mutant": "window(off=..,w=32,v=0): 32 bytes of 0xff over a reorg header's parent total difficulty, delivered raw and re-sealed"}));
     report.sample(json!({"scenario": "Filters", "home": "BlockFilters", "mutant": "filters+hashes:doubled"}));
     report.assume("Dummy PoW (quick) / Dummy + Eaglesong with easy targets (thorough); hash collisions excluded");
     report.assume("the documented `long fork detected` panic is not counted");
+    report.assume("quick: byte windows use the all-ones value of widths 4/8/32, zero for width 8 and 2^255-1 for width 32; thorough: all boundary values and bit flips");
 }
